@@ -55,7 +55,8 @@ FC_TARGETS = RDF_TARGETS + ["v1_1", "odml"]
 def doc_spec(rng, tag):
     """Small description of a document: sections with one-valued and multi-valued properties."""
     secs = []
-    for i in range(rng.randint(1, 3)):
+    # now and then a document without any Section (valid; such a Document is falsy: len() == 0)
+    for i in range(rng.randint(1, 3) if rng.random() < 0.9 else 0):
         props = []
         for k in range(rng.randint(0, 2)):
             dt = rng.choice(["int", "string", "float"])
@@ -175,6 +176,8 @@ def generate(run_seed):
            "indir": rng.choice(["plain", "plain", "trailing-slash", "relative", "relative-slash"])}
     if rng.random() < 0.3:
         run["inname"] = rng.choice(["in+put", "in(put)", "in.put", "input 1"])
+    if tool == "formatconverter" and rng.random() < 0.12:
+        run["indir"] = "dot"         # called from inside the input directory: "."
     if tool == "odmlconvert" and rng.random() < 0.35:
         run["chain"] = True      # second tool run: odmltordf over the result of the first
     if tool == "formatconverter":
@@ -185,7 +188,8 @@ def generate(run_seed):
             want = "v10xml" if run["target"] == "v1_1" else "v11xml"
             for f in files:
                 f["kind"] = want
-                f["ext"] = rng.choice(EXT[want])
+                # the converter takes every file of the directory, whatever it is called
+                f["ext"] = rng.choice(EXT[want] + [""])
     return {"format": 1, "engine": "batch", "property": PROPERTY, "run_seed": run_seed,
             "dirs": dirs, "tree": files, "tool": run}
 
@@ -252,7 +256,10 @@ def run_case(case):
         os.chdir(cwd)
         indir_arg = {"plain": indir, "trailing-slash": indir + os.sep,
                      "relative": os.path.join("..", inname),
-                     "relative-slash": os.path.join("..", inname) + os.sep}[run.get("indir", "plain")]
+                     "relative-slash": os.path.join("..", inname) + os.sep,
+                     "dot": "."}[run.get("indir", "plain")]
+        if run.get("indir") == "dot":
+            os.chdir(indir)
         counter = {}
         outcome = ("ret", None)
         env.capture.take()
